@@ -327,3 +327,58 @@ func init() {
 	externals[rtPath+".IntRange"] = rng(types.Int)
 	externals[rtPath+".I64Range"] = rng(types.Int64)
 }
+
+// Ghost mathematical integers (zzverifrt.Z): unbounded Int terms, int mode only. A Z value is
+// structure{*sym} whose term has sort Int and is never wrapped.
+func zOf(v value) *Term {
+	st := v.(structure)
+	switch x := st[0].(type) {
+	case *sym:
+		return x.T
+	}
+	panic(unsupported("Z value without term (zero Z?)"))
+}
+
+func zMk(t *Term) value { return structure{&sym{K: types.UntypedInt, T: t}} }
+
+func init() {
+	needInt := func() {
+		if !IntMode {
+			panic(unsupported("zzverifrt.Z needs arith=int"))
+		}
+	}
+	rt := func(name string, f externalFn) { externals[rtPath+"."+name] = f }
+	zm := func(name string, f externalFn) { externals["("+rtPath+".Z)."+name] = f }
+	rt("ZI", func(fr *frame, a []value) value { needInt(); return zMk(intTermOf(a[0])) })
+	rt("ZU", func(fr *frame, a []value) value { needInt(); return zMk(intTermOf(a[0])) })
+	bin := func(op string) externalFn {
+		return func(fr *frame, a []value) value { return zMk(IntBin(op, zOf(a[0]), zOf(a[1]))) }
+	}
+	zm("Add", bin("+"))
+	zm("Sub", bin("-"))
+	zm("Mul", bin("*"))
+	zm("MulPow10", func(fr *frame, a []value) value {
+		k := asInt64(a[1])
+		p := new(big.Int).Exp(bi(10), bi(k), nil)
+		return zMk(IntBin("*", zOf(a[0]), ConstInt(p)))
+	})
+	zm("Neg", func(fr *frame, a []value) value { return zMk(IntBin("-", ConstInt(bi(0)), zOf(a[0]))) })
+	zm("Abs", func(fr *frame, a []value) value {
+		t := zOf(a[0])
+		return zMk(Ite(IntCmp("<", t, ConstInt(bi(0))), IntBin("-", ConstInt(bi(0)), t), t))
+	})
+	cmp := func(op string, swap bool) externalFn {
+		return func(fr *frame, a []value) value {
+			x, y := zOf(a[0]), zOf(a[1])
+			if swap {
+				x, y = y, x
+			}
+			return mkVal(types.Bool, IntCmp(op, x, y))
+		}
+	}
+	zm("Le", cmp("<=", false))
+	zm("Lt", cmp("<", false))
+	zm("Ge", cmp("<=", true))
+	zm("Gt", cmp("<", true))
+	zm("Eq", cmp("=", false))
+}
